@@ -113,8 +113,6 @@ def _value_of_body(f, body, rets):
                 if tn['c'] == 'InlinedReturn' and tn['ch']:
                     arms.append((sn['cond'], tn['ch'][0]))
                     continue
-                ok = False
-                break
             if sn['c'] == 'InlinedReturn' and sn['ch'] and s == b['ch'][-1]:
                 default = sn['ch'][0]
                 continue
